@@ -158,6 +158,16 @@ pub fn record(seed: u64, thorough: bool) -> Vec<J> {
                 if !thorough && !reciprocal && (ia + ib + k) % 3 != 0 && ia != ib { continue; }
                 let ab = match units::convert(*x, ida, idb) { Ok(v) => v, Err(_) => continue };
                 if ia == ib {
+                // through the language, every identifier of the unit is that unit (the built-in hands the strings over untouched)
+                if k == 3 {
+                    let s = Session::new();
+                    for alias in a.identifiers.iter() {
+                        let o = s.eval(&format!("convert(1, {}, {})", mv::str_src(alias), mv::str_src(ida)));
+                        let u = match o { Outcome::Ok(Value::Number(v)) => ulps(v, 1.0), _ => 1_000_000 };
+                        out.push(json!({"ev":"num","law":"builtin","src":format!("convert(1, {alias:?}, {ida:?}) built-in"),"ulps":u}));
+                    }
+                    crate::ev::clear_stats();
+                }
                     out.push(json!({"ev":"num","law":"identity","src":format!("convert({x}, {ida}, {ida})"),"ulps":ulps(ab, *x)}));
                     // every identifier of the unit behaves identically
                     for alias in a.identifiers.iter().skip(1) {
@@ -193,16 +203,6 @@ pub fn record(seed: u64, thorough: bool) -> Vec<J> {
                             out.push(json!({"ev":"num","law":"triangle","src":format!("convert({x}, {ida} -> {idb} -> {idc}) vs direct"),"ulps": ulps_at_scale(abc, ac, floor)}));
                         }
                     }
-                }
-                // through the language, every identifier of the unit is that unit (the built-in hands the strings over untouched)
-                if ia == ib && k == 3 {
-                    let s = Session::new();
-                    for alias in a.identifiers.iter() {
-                        let o = s.eval(&format!("convert(1, {}, {})", mv::str_src(alias), mv::str_src(ida)));
-                        let u = match o { Outcome::Ok(Value::Number(v)) => ulps(v, 1.0), _ => 1_000_000 };
-                        out.push(json!({"ev":"num","law":"builtin","src":format!("convert(1, {alias:?}, {ida:?}) built-in"),"ulps":u}));
-                    }
-                    crate::ev::clear_stats();
                 }
                 // the convert built-in gives the library's value
                 if k % 4 == 0 {
